@@ -16,8 +16,9 @@
      s_mcfg    "config.mediaType" member of the manifest content;
      s_mann    "annotations" member of the manifest content (None = absent/null).
 
-   Sources that implement registry.ReferrerLister (remote repositories) take
-   another branch in the first filter and are not covered by this model. *)
+     s_lister  the source implements registry.ReferrerLister (remote repository):
+               the first filter that is installed then filters the served referrer
+               descriptors as they are, without fetching missing fields. *)
 From Oras Require Import Base.Prelude Generated.GC03.
 
 Inductive mkind := KImage | KDocker | KIndex | KDockerList | KArtifact | KOther.
@@ -62,7 +63,8 @@ Record source := mkSource {
   s_kind : nat -> mkind;
   s_mat : nat -> str;
   s_mcfg : nat -> str;
-  s_mann : nat -> option annots
+  s_mann : nat -> option annots;
+  s_lister : bool
 }.
 
 Definition is_empty (s : str) : bool := match s with [] => true | _ => false end.
@@ -140,10 +142,29 @@ Definition apply_filter_gen (fill : source -> desc -> desc) (s : source) (f : fi
 Definition apply_filter := apply_filter_gen fill_at.
 Definition apply_filter_prefix := apply_filter_gen fill_at_prefix.
 
-(* opts.FindPredecessors after the calls [fs] (in call order) on a source that
-   is not a ReferrerLister; [] = the default src.Predecessors *)
+(* the branch `if rf, ok := src.(registry.ReferrerLister); ok` of a filter that was
+   installed while opts.FindPredecessors was still nil: keep(r) on each served
+   referrer, page by page, nothing fetched *)
+Definition apply_lister (f : filter) (ps : list desc) : list desc :=
+  match f with
+  | FArt None => ps
+  | FArt (Some re) => List.filter (fun p => re (d_at p)) ps
+  | FAnn key re => List.filter (keep_ann key re) ps
+  end.
+
+(* FilterArtifactType(nil) returns without touching opts *)
+Definition is_noop (f : filter) : bool := match f with FArt None => true | _ => false end.
+
+(* state: (opts.FindPredecessors is still nil, predecessors so far) *)
+Definition step_gen fill (s : source) (acc : bool * list desc) (f : filter) : bool * list desc :=
+  if is_noop f then acc
+  else if (fst acc && s_lister s)%bool then (false, apply_lister f (snd acc))
+  else (false, apply_filter_gen fill s f (snd acc)).
+
+(* opts.FindPredecessors after the calls [fs] (in call order);
+   [] = the default src.Predecessors *)
 Definition find_preds_gen fill (s : source) (fs : list filter) (id : nat) : list desc :=
-  fold_left (fun acc f => apply_filter_gen fill s f acc) fs (s_preds s id).
+  snd (fold_left (step_gen fill s) fs (true, s_preds s id)).
 
 Definition find_preds := find_preds_gen fill_at.
 Definition find_preds_prefix := find_preds_gen fill_at_prefix.
